@@ -60,7 +60,10 @@ class RollBackJournalCarver:
 
         logger.debug("Starting carving table: %s... " % master_schema_entry.name)
 
-        has_data = True
+        # There is nothing to carve unless at least one whole page record follows the journal header sector
+        has_data = (
+            sector_size + page_record_size <= rollback_journal.file_handle.file_size
+        )
         offset = sector_size
         while has_data:
 
@@ -122,6 +125,13 @@ class RollBackJournalCarver:
 
                 # The page record is cut off since it is goes beyond the end of the file
                 has_data = False
+
+                # Nothing is left when the journal ends exactly at a page record boundary
+                if (
+                    offset + page_record_header_size
+                    >= rollback_journal.file_handle.file_size
+                ):
+                    break
 
                 """
 
